@@ -26,6 +26,7 @@ UNARY_LEVEL = 7
 BINARY_OPS = ['+', '-', '*', '/', '%', '|', '&', '^', '<', '<=', '==', '!=', '>=', '>', 'and', 'or']
 UNARY_OPS = ['not', 'empty', 'not_empty', 'cardinality', '+', '-']
 COMPARISONS = ['<', '<=', '==', '!=', '>=', '>']
+TRAILING_COMMA = ','        # optional last element of a parameter / event data list: print a comma after the last item
 
 KEYWORDS = set('''ASSIGN ASSIGNER BREAK BRIDGE SEND CONTROL STOP CONTINUE CREATE EVENT INSTANCE OF OBJECT DELETE FOR
 EACH IN GENERATE IF ELIF ELSE RELATE TO ACROSS USING RETURN SELECT ONE ANY MANY TRANSFORM UNRELATE FROM WHILE CLASS
@@ -257,8 +258,13 @@ class Printer(object):
         raise ValueError(e)
 
     def params(self, params, cls='ParameterListNode', item='ParameterNode'):
+        # a last element ',' (TRAILING_COMMA) asks for the comma the grammar allows after the last item: 'f(a: 1, )' is
+        # another way of writing the same list
         first = len(self.p.toks)
         items = []
+        trailing = bool(params) and params[-1] == TRAILING_COMMA
+        if trailing:
+            params = params[:-1]
         for n, (name, ex) in enumerate(params):
             if n:
                 self.tok(',')
@@ -267,6 +273,8 @@ class Printer(object):
             self.tok(':')
             x = self.expr(ex)
             items.append(self.node(item, f, dict(name=name, expression=x), track=False))
+        if trailing and params:
+            self.tok(',')
         return self.node(cls, first, dict(children=items), track=False)
 
     def invocation(self, e, cls=None):
